@@ -151,7 +151,10 @@ def used_types(items):
 
 
 def predicted_hier(items):
-    return any(items[t][2] != "-" for t in used_types(items))
+    """the model's `hier` input = "a user type named `object` must be renamed": the problem has hierarchical typing, or
+    (since the writer fix for a type called `object` next to other types) more than one user type"""
+    ut = used_types(items)
+    return any(items[t][2] != "-" for t in ut) or len(ut) > 1
 
 
 def predicted_names(items):
@@ -485,6 +488,22 @@ def run_pddl_ops(payload):
     return problem, objs, w, res, text
 
 
+def model_payload(payload):
+    """the `hier` input of the model ("a user type named object must be renamed") is read from the REAL problem:
+    has_hierarchical_typing() or more than one user type (Problem.user_types depends on how fluents, actions and
+    quantified variables mention types, which the payload does not pin)"""
+    if payload[0] != "pddl":
+        return payload
+    try:
+        problem, objs = build_pddl(_flags(payload[1]), payload[4][1:])
+        real = problem.kind.has_hierarchical_typing() or len(problem.user_types) > 1
+    except Exception:
+        return payload
+    out = list(payload)
+    out[2] = B(real)
+    return out
+
+
 def impl(payload):
     kind = payload[0]
     if kind == "pddl":
@@ -497,7 +516,7 @@ def impl(payload):
         real_names = sorted(n for n in probe if problem.has_name(n))
         if real_names != sorted(set(payload[3][1:]) & probe) or any(not problem.has_name(n) for n in payload[3][1:]):
             return ["harness-names-mismatch", real_names]
-        return [["hier", B(problem.kind.has_hierarchical_typing())], ["nkw", str(len(w.pddl_keywords))],
+        return [["hier", B(problem.kind.has_hierarchical_typing() or len(problem.user_types) > 1)], ["nkw", str(len(w.pddl_keywords))],
                 ["res"] + res,
                 ["otn"] + [[_idx(objs, k), nm(v)] for k, v in w.otn_renamings.items()],
                 ["nto"] + [[nm(k), _idx(objs, v)] for k, v in w.nto_renamings.items()]]
